@@ -66,8 +66,8 @@ func TestC12(t *testing.T) {
 		Rule:        "case = one stream history (single signal or traces/logs/metrics interleaved on ONE producer; random dictionary limit / reset threshold / zstd; cardinality ramps that force schema changes and dictionary resets; histories with refused oversize batches) whose every emitted BatchArrowRecords is checked online: batch id = previous+1, first payload = main type, payload types unique, related payloads non-empty, schema id write-once per (type, schema) and never reused after retirement, per-id IPC message sequence [Schema] Dict* RecordBatch without trailing bytes, an independent ipc.Reader per schema id yields exactly one record per payload with all dictionary indices in range. Non-trivial = history with >=1 retired schema id or >=1 dictionary replacement. Distinct = (script, signals, options, #retired ids, #replacements).",
 		Assumptions: []string{"the independent reader is arrow-go's ipc package (independent of the repository's Consumer, not of the Arrow library)", "sampled histories"},
 		Gates: map[string]map[string]int{
-			"quick":    {"retired_schema_ids": 100, "payloads": 3000, "obs.reset": 1, "ipc.dictionary_msgs": 100},
-			"thorough": {"retired_schema_ids": 2000, "payloads": 60000, "obs.reset": 5, "ipc.dictionary_msgs": 2000},
+			"quick":    {"retired_schema_ids": 100, "payloads": 3000, "obs.reset": 1, "ipc.dictionary_msgs": 100, "refused_batches": 8},
+			"thorough": {"retired_schema_ids": 2000, "payloads": 60000, "obs.reset": 5, "ipc.dictionary_msgs": 2000, "refused_batches": 30},
 		},
 		Excluded: carveNames,
 	})
@@ -87,6 +87,22 @@ func TestC12(t *testing.T) {
 			c.Sample(map[string]any{"script": h.Script, "signals": fmt.Sprint(sigs), "options": o.String(), "batches": len(h.Batches),
 				"retired_schema_ids": fm.RetiredIDs, "dictionary_replacements": fm.DictReplacements, "payloads": fm.Payloads})
 		}
+	})
+	// refused batches inside a stream: ids must be gap-free over the batches that WERE emitted and the
+	// sub-streams must stay valid although the producer discarded half-built records
+	r.Layer("refused", e.Pick(numOversizeKinds, 3*numOversizeKinds), func(c *vc.Case) {
+		big, name := oversize(c.Idx%numOversizeKinds, []int{65600, 65536, 131073}[(c.Idx/numOversizeKinds)%3])
+		g := gen.New(c.R, gen.DValid)
+		g.Carve = carve
+		h := &History{Script: "refused:" + name}
+		g.ZeroBias = 0.5
+		h.Batches = []Batch{genBatch(g, big.Sig, 8), genBatch(g, big.Sig, 8), big, genBatch(g, big.Sig, 8), copyBatch(big), genBatch(g, big.Sig, 8), genBatch(g, big.Sig, 8)}
+		o := DefaultOpts()
+		o.Zstd = c.R.IntN(2)
+		fm, _ := frameHistory(c, h, o, "C12")
+		c.FP(h.Script, o.String())
+		c.Nontrivial(true)
+		c.Sample(map[string]any{"script": h.Script, "options": o.String(), "batches": len(h.Batches), "emitted": fm.Batches})
 	})
 	// cardinality ramps under small limits: schema changes by overflow, resets under an unchanged schema
 	r.Layer("ramp", e.Pick(24, 240), func(c *vc.Case) {
